@@ -303,10 +303,19 @@ def observe(call):
                 unit['sem'] = outcome_of(e)['kind']
         unit['before'] = snap(args)
         err, res = None, None
-        try:
-            res = fn(**args)
-        except Exception as e:  # noqa
-            err = e
+        first = None
+        for rep in range(call.get('repeat', 1)):        # the SAME argument objects are passed again
+            err, res = None, None
+            try:
+                res = fn(**args)
+            except Exception as e:  # noqa
+                err = e
+            if rep == 0:
+                first = outcome_of(err)
+        if call.get('repeat', 1) > 1:
+            last = outcome_of(err)
+            unit['repeat_same_outcome'] = (first['kind'], first['cls'], first['code']) == (last['kind'], last['cls'], last['code'])
+            unit['first_outcome'] = first
         unit['after'] = snap(args)
         unit['outcome'] = outcome_of(err)
         unit['text'] = (script or '')[:400]
